@@ -5,7 +5,7 @@
    flip_rank s, White and Black slots are exchanged, the side to move and the castling rights are exchanged,
    the e.p. square is flipped). *)
 From WV Require Import Types Bits Attacks Board MoveEnc MoveGen Rules Abs Wf Encode Eval.
-From WV Require Import EvalF32 EvalShortcut EvalProofs EvalMirror.
+From WV Require Import EvalF32 EvalShortcut EvalProofs EvalMirror EvalMirrorRules.
 Import WV.Bits.
 Open Scope Z_scope.
 
@@ -46,3 +46,47 @@ Print Assumptions C13_mirror_heuristic_legal.
 Theorem C13_mirror_wf : forall s, WfState s -> WfState (mirror_state s).
 Proof. exact mirror_wf_state. Qed.
 Print Assumptions C13_mirror_wf.
+
+(* the mirror image of a legal position is a legal position *)
+Theorem C13_mirror_legal : forall s, LegalPos s -> LegalPos (mirror_state s).
+Proof. exact mirror_legal. Qed.
+Print Assumptions C13_mirror_legal.
+
+(* mirror, the whole evaluator (mate / stalemate / heuristic branch): by the symmetry of the rules
+   (proofs/EvalMirrorRules.v: Rules.legal, Rules.legal_pos and king_attacked commute with the mirror image)
+   together with C01 (generator = rules) and C10 (check flag = rules) *)
+Theorem C13_mirror : forall s p d, LegalPos s -> evaluate (mirror_state s) (opp p) d = evaluate s p d.
+Proof. exact evaluate_mirror. Qed.
+Print Assumptions C13_mirror.
+
+Theorem C13_mirror_movegen : forall s, LegalPos s ->
+  (gen_legal (mirror_state s) = [] <-> gen_legal s = []) /\ is_check (mirror_state s) = is_check s.
+Proof.
+  exact (fun s HL => conj (gen_legal_nil_mirror s HL) (is_check_mirror s (proj1 (legal_pos_wf s HL)))).
+Qed.
+Print Assumptions C13_mirror_movegen.
+
+(* non-vacuity (one vm_compute).
+   asym : White Ke1 Qd1 Ra1 Nf3 Pa2 Pe4, Black Kg8 Rf8 Bb7 Pg7 Ph6 (placement only): +850 / -850, and the
+          mirrored placement gives -850 / +850.
+   mid  : the position of C01 (White to move, e.p. target d6): +36 for White; its mirror image (Black to
+          move, e.p. target d3) gives +36 for Black.
+   mate : back-rank mate of Black (C05); the mirror image is the back-rank mate of White. *)
+Example C13_example :
+  let asym := mkBoard 268435712 2097152 0 1 8 16 18155135997837312 0 562949953421312 2305843009213693952 0
+                      4611686018427387904 in
+  let mid := mkState (mkBoard 18014467228958976 0 0 0 0 16 36028831378833408 0 0 0 0 1152921504606846976)
+                     White false false false false (Some 43%N) 0 10 in
+  let mate := mkState (mkBoard 0 0 0 1152921504606846976 0 64 54043195528445952 0 0 0 0 9223372036854775808)
+                      Black false false false false None 0 1 in
+  (wf_boardb asym = true /\ heuristic asym White = 850 /\ heuristic asym Black = -850 /\
+   heuristic (mirror_board asym) Black = 850 /\ heuristic (mirror_board asym) White = -850) /\
+  (legal_posb mid = true /\ legal_posb (mirror_state mid) = true /\
+   mirror_state mid = mkState (mkBoard 2199157506048 0 0 0 0 16 281475245162496 0 0 0 0 1152921504606846976)
+                              Black false false false false (Some 19%N) 0 10 /\
+   evaluate mid White 0 = EVal 36 /\ evaluate mid Black 0 = EVal (-36) /\
+   evaluate (mirror_state mid) Black 0 = EVal 36 /\ evaluate (mirror_state mid) White 0 = EVal (-36)) /\
+  (legal_posb (mirror_state mate) = true /\ st_turn (mirror_state mate) = White /\
+   evaluate mate Black 0 = EVal (-11000) /\ evaluate (mirror_state mate) White 0 = EVal (-11000) /\
+   evaluate (mirror_state mate) Black 0 = EVal 11000).
+Proof. vm_compute. repeat split. Qed.
